@@ -53,7 +53,7 @@ func TestC01(t *testing.T) {
 		var problems []string // per-view disagreements at the deadline (or at a relapse)
 		var probKeys []string
 		converged := time.Duration(-1)
-		faults, changes, leavesSkipped, leaves, relapses, uninformed := 0, 0, 0, 0, 0, 0
+		faults, changes, leavesSkipped, leaves, relapses, uninformed, joinsDuringLeave, prefixSettled := 0, 0, 0, 0, 0, 0, 0, 0
 
 		synctest.Test(t, func(t *testing.T) {
 			nw := simnet.New(int64(ci))
@@ -186,24 +186,98 @@ func TestC01(t *testing.T) {
 			log := func(f string, a ...any) {
 				trace = append(trace, fmt.Sprintf("%v ", time.Since(t0).Round(time.Millisecond))+fmt.Sprintf(f, a...))
 			}
+			// leaveOp: x leaves gracefully (only when the views agree at this instant); `back`, or half of the
+			// time some crashed node, comes back and joins while the leave is in progress. false = setup error.
+			leaveOp := func(x *c01Node, back *c01Node) bool {
+				// "left gracefully (while connected)": only when the views agree at this instant
+				synctest.Wait()
+				if bad, _ := check(); len(bad) > 0 {
+					leavesSkipped++
+					return true
+				}
+				log("leave %s", x.name)
+				leftSoonAfterFault[x.name] = lastFault >= 0 && time.Since(t0)-lastFault < 3*time.Minute
+				// a crashed node comes back and joins while the leave is in progress (the leaver's intent is
+				// out, its peers list it as leaving, it has not left memberlist yet) - no fault, only a join
+				// interleaved with a leave
+				if back == nil {
+					for _, y := range nodes {
+						if y.state == "crashed" && rng.Intn(2) == 0 {
+							back = y
+							break
+						}
+					}
+				}
+				if back != nil {
+					lg := newBGroup()
+					lg.Go(func() { _ = x.nd.S.Leave() })
+					time.Sleep(time.Duration(20+rng.Intn(1500)) * time.Millisecond)
+					log("restart %s during the leave of %s", back.name, x.name)
+					if !start(back) {
+						return false
+					}
+					tryJoin(back)
+					changes++
+					joinsDuringLeave++
+					if os.Getenv("VERIF_C01_DEBUG") != "" {
+						var vs []string
+						for _, v := range running() {
+							vs = append(vs, fmt.Sprintf("%s:%v", v.name, v.nd.MemberMap()[x.name]))
+						}
+						fmt.Printf("DEBUG case %d %s: leaver %s state=%v joined=%v views %v\n", ci, profile, x.name, x.nd.S.State(), back.joined, vs)
+					}
+					lg.Wait()
+				} else {
+					_ = x.nd.S.Leave()
+				}
+				x.nd.Close()
+				x.state = "left"
+				changes++
+				leaves++
+				return true
+			}
+			// a fifth of the scripts open with exactly that: one node crashes, is noticed, and comes back
+			// while another one is leaving
+			if rng.Intn(5) == 0 {
+				y := nodes[1+rng.Intn(nn-1)]
+				x := nodes[rng.Intn(nn)]
+				if x != y {
+					log("crash %s", y.name)
+					y.nd.Close()
+					y.state = "crashed"
+					changes++
+					time.Sleep(time.Duration(30+rng.Intn(200)) * time.Second)
+					if !leaveOp(x, y) {
+						return
+					}
+					// nothing but a crash, a leave and a restart so far and the network is whole: the views have
+					// to become right before the script goes on (the later operations may remove the witnesses)
+					quiet := time.Now()
+					for {
+						synctest.Wait()
+						bad, keys := check()
+						if len(bad) == 0 {
+							prefixSettled++
+							break
+						}
+						if time.Since(quiet) > 10*time.Minute {
+							problems, probKeys = bad, keys
+							log("views still wrong 10 minutes after the restart during the leave")
+							return
+						}
+						time.Sleep(time.Second)
+					}
+					time.Sleep(time.Duration(rng.Intn(25000)) * time.Millisecond)
+				}
+			}
 			for op := 0; op < nops; op++ {
 				run := running()
 				x := nodes[rng.Intn(nn)]
 				switch k := rng.Intn(100); {
 				case k < 12 && x.state == "running" && len(run) > 1 && !cutActive && !lossActive:
-					// "left gracefully (while connected)": only when the views agree at this instant
-					synctest.Wait()
-					if bad, _ := check(); len(bad) > 0 {
-						leavesSkipped++
-						break
+					if !leaveOp(x, nil) {
+						return
 					}
-					log("leave %s", x.name)
-					leftSoonAfterFault[x.name] = lastFault >= 0 && time.Since(t0)-lastFault < 3*time.Minute
-					_ = x.nd.S.Leave()
-					x.nd.Close()
-					x.state = "left"
-					changes++
-					leaves++
 				case k < 28 && x.state == "running" && len(run) > 1:
 					log("crash %s", x.name)
 					x.nd.Close()
@@ -319,6 +393,8 @@ func TestC01(t *testing.T) {
 		r.Count("operations", len(trace))
 		r.Count("graceful_leaves", leaves)
 		r.Count("graceful_leaves_skipped_views_not_converged", leavesSkipped)
+		r.Count("restarts_joining_during_a_graceful_leave", joinsDuringLeave)
+		r.Count("scripts_opening_with_a_restart_during_a_leave_settled", prefixSettled)
 		r.Count("transient_relapses_before_stability", relapses)
 		if uninformed > 0 {
 			r.Count("scenarios_where_no_running_instance_knew_of_a_leave", 1)
